@@ -165,6 +165,24 @@ def _date_regex(fmt_):
     return re.compile(out + r'$')
 
 
+def _opts(case, R_):
+    """documented constructor options (layout only: none of them adds, drops or changes an entry)"""
+    o = (case.get('options') or {}).get(R_.__name__) or {}
+    return dict(o)
+
+
+def gen_options(rnd):
+    if rnd.random() < 0.5:
+        return {}
+    return {'MermaidGantt': {k: v for k, v in (('title', rnd.choice([None, 'Plan 2026', 'Q1 roadmap'])), ('weekends', rnd.random() < 0.4),
+                                               ('tick_interval', rnd.choice([None, None, '1week', '1day'])), ('height', rnd.choice([300, 120])))
+                             if rnd.random() < 0.7},
+            'MermaidNetwork': {'height': rnd.choice([300, 500])} if rnd.random() < 0.5 else {},
+            'DhtmlxGantt': {k: v for k, v in (('today_marker', rnd.random() < 0.5), ('scale', rnd.choice(['day', 'week', 'month'])),
+                                              ('row_height', rnd.choice([25, 40])), ('height', rnd.choice([300, 640])))
+                            if rnd.random() < 0.6}}
+
+
 def parse_gantt(src):
     """Mermaid gantt grammar (the subset the property speaks about): `dateFormat <fmt>`, `section <name>`, and task
     lines `<title> : [tag, ...] id_<id>, <start>, <end>` with free spacing.  Returns (Counter of (id, start, end,
@@ -338,7 +356,7 @@ def judge(case, acc):
         from pjplan import Task as _Task
         for R_ in (MermaidGantt, MermaidNetwork, DhtmlxGantt):
             try:
-                renderers[R_] = R_(s)
+                renderers[R_] = R_(s, **_opts(case, R_))
                 renderers[R_].to_html()
             except Exception:
                 renderers.pop(R_, None)
@@ -350,7 +368,7 @@ def judge(case, acc):
         acc.count('reused_renderers')
 
     def make(R_):
-        return renderers.get(R_) or R_(s)
+        return renderers.get(R_) or R_(s, **_opts(case, R_))
     names = [t.name for t in tasks]
     fc = frag_class(names)
     hostile = bool(fc)
@@ -514,7 +532,7 @@ def gen_case(rnd):
                 custom[str(t['id'])] = {rnd.choice(['ID', 'Parent', 'Type', 'Progress', 'Text', 'note', 'Start_date', 'End_Date', 'Open', 'Id']):
                                         rnd.choice(['JIRA-101', '25%', 'x', '</script>', 7, None])}
     return {'kind': 'viz', 'sched': sc, 'names': names, 'sections': sections, 'now': now, 'styles': rnd.random() < 0.3, 'custom': custom,
-            'reuse': rnd.random() < 0.2}
+            'reuse': rnd.random() < 0.2, 'options': gen_options(rnd)}
 
 
 def run_shard(prop, tier, seed, shard, nshards, budget, acc):
